@@ -1,4 +1,212 @@
 package main
 
-func runC10Open(c *Ctx) {}
-func runC10V1(c *Ctx)   {}
+import (
+	"go/token"
+
+	"golang.org/x/tools/go/ssa"
+)
+
+// runC10Open: C10.O5 — recovery ordering inside pebble.Open.
+func runC10Open(c *Ctx) {
+	fn := c.Fn("C10.O5", "p.Open")
+	if fn == nil {
+		return
+	}
+	// O5a: every WAL is replayed before the recovered sequence number is published
+	{
+		fl := NewFlow(c.P).KillAfter("before-publication", MethodOn("Store", "visibleSeqNum"))
+		entry := emptyState()
+		entry.add("before-publication")
+		res := fl.Analyze(fn, entry)
+		n := c.Require("C10.O5", res, CallTo("p.(*DB).replayWAL"), "WALs are replayed before visibleSeqNum is published", []string{"before-publication"})
+		if n == 0 || len(instrs(fn, MethodOn("Store", "visibleSeqNum"))) == 0 {
+			c.Unresolved("C10.O5", "replayWAL / visibleSeqNum.Store not found in Open")
+		}
+		// a replay error aborts Open
+		res2 := NewFlow(c.P).Ok("ok:replay", CallTo("p.(*DB).replayWAL")).Analyze(fn, emptyState())
+		_ = res2
+	}
+	// O5b: replayed memtables are flushed before the new WAL is created (old WALs can then be deleted)
+	{
+		fl := NewFlow(c.P).
+			After("flush-scheduled", CallTo("p.(*DB).maybeScheduleFlush")).
+			Edge("flush-finished", BoolGuard("compact.flushing", false))
+		res := fl.Analyze(fn, emptyState())
+		n := c.Require("C10.O5", res, MethodOn("Create", "log.manager"), "recovered memtables are flushed before the new WAL is created", []string{"flush-scheduled", "flush-finished"})
+		if n == 0 {
+			c.Unresolved("C10.O5", "log.manager.Create not found in Open")
+		}
+	}
+	// O5c: OPTIONS file protocol
+	// the OPTIONS chain on the file returned by Create: identify calls on that value
+	var optFile ssa.Value
+	for _, in := range instrs(fn, ImplCall(c.Iface("C10.O5c", "vfs.FS"), "vfs.FS", "Create")) {
+		call := in.(*ssa.Call)
+		if call.Referrers() != nil {
+			for _, r := range *call.Referrers() {
+				if ex, ok := r.(*ssa.Extract); ok && ex.Index == 0 {
+					optFile = ex
+				}
+			}
+		}
+	}
+	if optFile == nil {
+		c.Unresolved("C10.O5c", "OPTIONS file creation not found in Open")
+		return
+	}
+	on := func(method string) M {
+		return Pred("optionsFile."+method, func(in ssa.Instruction) bool {
+			cc := getCallCommon(in)
+			if cc == nil || !cc.IsInvoke() || cc.Method.Name() != method {
+				return false
+			}
+			return cc.Value == optFile
+		})
+	}
+	res := c.Chain("C10.O5c", fn, nil,
+		Step{Name: "optionsFile.Write", M: on("Write"), Gated: true},
+		Step{Name: "optionsFile.Sync", M: on("Sync"), Gated: true},
+		Step{Name: "optionsFile.Close(success path)", M: Pred("optionsFile.Close whose error is checked", func(in ssa.Instruction) bool {
+			if !on("Close").F(in) {
+				return false
+			}
+			call := in.(*ssa.Call)
+			if call.Referrers() == nil {
+				return false
+			}
+			for _, r := range *call.Referrers() {
+				if bo, ok := r.(*ssa.BinOp); ok && (bo.Op == token.NEQ || bo.Op == token.EQL) {
+					return true
+				}
+			}
+			return false
+		}), Gated: true},
+		Step{Name: "FS.Rename", M: ImplCall(c.Iface("C10.O5c", "vfs.FS"), "vfs.FS", "Rename"), Gated: true},
+		Step{Name: "DataDir.Sync", M: MethodOn("Sync", "dirs.DataDir"), Gated: true},
+		Step{Name: "scanObsoleteFiles", M: CallTo("p.(*DB).scanObsoleteFiles")},
+	)
+	_ = res
+}
+
+// runC10V1: the flush's version edit names the first log that is NOT flushed.
+func runC10V1(c *Ctx) {
+	fn := c.Fn("C10.V1", "p.(*DB).flush1")
+	if fn == nil {
+		return
+	}
+	queue := c.Field("C10.V1", "p.DB.mu.mem.queue")
+	logNum := c.Field("C10.V1", "p.flushableEntry.logNum")
+	// the cell of the local variable n
+	isLoadOfN := func(v ssa.Value) bool {
+		u, ok := v.(*ssa.UnOp)
+		if !ok || u.Op != token.MUL {
+			return false
+		}
+		a, ok := u.X.(*ssa.Alloc)
+		return ok && a.Comment == "n"
+	}
+	isN := func(v ssa.Value) bool {
+		v = stripConv(v)
+		if isLoadOfN(v) {
+			return true
+		}
+		if phi, ok := v.(*ssa.Phi); ok && phi.Comment == "n" {
+			return true
+		}
+		return false
+	}
+	// (1) the value that reaches ve.MinUnflushedLogNum
+	var minLogCell ssa.Value
+	nChecks := 0
+	for _, b := range fn.Blocks {
+		for _, in := range b.Instrs {
+			st, ok := in.(*ssa.Store)
+			if !ok {
+				continue
+			}
+			a, ok := st.Addr.(*ssa.Alloc)
+			if !ok || a.Comment != "minUnflushedLogNum" {
+				continue
+			}
+			minLogCell = a
+			nChecks++
+			// must be exactly: load of (&queue[n]).logNum
+			ok2 := false
+			what := pathOf(st.Val)
+			if u, isLoad := st.Val.(*ssa.UnOp); isLoad && u.Op == token.MUL {
+				if fa, isFA := u.X.(*ssa.FieldAddr); isFA && fieldVar(fa.X.Type(), fa.Field) == logNum {
+					base := fa.X
+					if ld, isLd := base.(*ssa.UnOp); isLd {
+						base = ld.X
+					}
+					if ia, isIA := base.(*ssa.IndexAddr); isIA && isLoadOfField(ia.X, queue) {
+						ok2 = isN(ia.Index)
+						what = "queue[" + pathOf(ia.Index) + "].logNum"
+					}
+				}
+			}
+			c.Ob("C10.V1", fn, "MinUnflushedLogNum is the log of queue[n], the first flushable NOT being flushed", c.P.Pos(in.Pos()), ok2,
+				map[bool]string{true: "", false: "minUnflushedLogNum is computed as " + what + " instead of queue[n].logNum: an off-by-one deletes a WAL whose memtable is still only in memory (or keeps WALs forever)"}[ok2])
+		}
+	}
+	if nChecks == 0 {
+		c.Unresolved("C10.V1", "definition of minUnflushedLogNum not found in flush1")
+	}
+	// (2) queue[:n] goes to newFlush; queue[n:] is what remains
+	for _, in := range instrs(fn, CallTo("p.newFlush")) {
+		okk := false
+		for _, a := range in.(*ssa.Call).Common().Args {
+			if sl, ok := a.(*ssa.Slice); ok && isLoadOfField(sl.X, queue) {
+				okk = sl.Low == nil && sl.High != nil && isN(sl.High)
+			}
+		}
+		c.Ob("C10.V1", fn, "the flush covers exactly queue[:n]", c.P.Pos(in.Pos()), okk, "")
+	}
+	for _, in := range instrs(fn, StoreTo(queue)) {
+		st := in.(*ssa.Store)
+		sl, ok := st.Val.(*ssa.Slice)
+		okk := ok && isLoadOfField(sl.X, queue) && sl.Low != nil && isN(sl.Low) && sl.High == nil
+		c.Ob("C10.V1", fn, "after the flush queue[n:] remains", c.P.Pos(in.Pos()), okk, "")
+	}
+	// (3) the closure stores that very variable into ve.MinUnflushedLogNum
+	if minLogCell != nil {
+		found := false
+		for _, a := range fn.AnonFuncs {
+			for _, b := range a.Blocks {
+				for _, in := range b.Instrs {
+					st, ok := in.(*ssa.Store)
+					if !ok {
+						continue
+					}
+					fa, ok := st.Addr.(*ssa.FieldAddr)
+					if !ok {
+						continue
+					}
+					f := fieldVar(fa.X.Type(), fa.Field)
+					if f == nil || f.Name() != "MinUnflushedLogNum" {
+						continue
+					}
+					found = true
+					okk := pathOf(st.Val) == "minUnflushedLogNum"
+					c.Ob("C10.V1", a, "ve.MinUnflushedLogNum is the value captured before the flush", c.P.Pos(in.Pos()), okk, "")
+				}
+			}
+		}
+		if !found {
+			c.Ob("C10.V1", fn, "ve.MinUnflushedLogNum is set by the flush", c.P.Pos(fn.Pos()), false, "flush1's version edit no longer sets MinUnflushedLogNum: WALs of flushed memtables would never become obsolete (or recovery replays flushed data)")
+		}
+	}
+	// n is not modified after it was used
+	fl := NewFlow(c.P).KillAfter("n-not-used-yet", CallTo("p.newFlush"))
+	entry := emptyState()
+	entry.add("n-not-used-yet")
+	res := fl.Analyze(fn, entry)
+	c.Require("C10.V1", res, Pred("store to n", func(in ssa.Instruction) bool {
+		st, ok := in.(*ssa.Store)
+		if !ok {
+			return false
+		}
+		a, ok := st.Addr.(*ssa.Alloc)
+		return ok && a.Comment == "n"
+	}), "n is fixed before it selects the flushed prefix", []string{"n-not-used-yet"})
+}
